@@ -700,6 +700,12 @@ def orc_sequence(case):
         return f'{fit_name}: the same call twice returned {_fmt(held)} and then {_fmt(th1b)}'
     thB = fit(model, dataB)
     thM = fit(model2, dataA)
+    # a result does not depend on what the same objects were used for before: freshly built objects give the same numbers
+    for what, th_seq, th_fresh in (('other training data', thB, fit(_model(cls_name, case, pbA), _train(case, pbB))),
+                                   ('another model', thM, fit(_model(cls_name, case, pbB), _train(case, pbA)))):
+        if not _same(th_seq, th_fresh):
+            return (f'{fit_name}: called with {what} of the same shape after an earlier fit it returns {_fmt(th_seq)}, with freshly '
+                    f'built objects {_fmt(th_fresh)}')
     if not _same(th1, held):
         return (f'{fit_name}: the result held by the caller changed from {_fmt(held)} to {_fmt(th1)} when the fitter was called '
                 f'again with other data / another model')
@@ -720,6 +726,17 @@ def orc_sequence(case):
             if not s_new >= s_old - TOL:
                 return (f'{fit_name}({method}) called with {what} of the same shape returned {_fmt(th_new)} (mean similarity '
                         f'{s_new:.9f}); the result of the EARLIER call, {_fmt(held)}, reaches {s_old:.9f} there')
+            if fit_name != 'fit_interpolate':
+                # ... and it is the optimum of the LATER problem (independently computed; for fit_interpolate the plain domain
+                # has the known finding F6 on arbitrary chains)
+                if fit_name == 'fit_select':
+                    s_best = max(crit.score(x) for x in X)
+                else:
+                    o = crit.optimum(X, fit_name in ('fit_regress_nn', 'fit_optimize_positive'))
+                    s_best = _theta_score(crit, X, o, fit_name)
+                if not s_new >= s_best - TOL:
+                    return (f'{fit_name}({method}) called with {what} of the same shape after an earlier fit returned {_fmt(th_new)} '
+                            f'(mean similarity {s_new:.9f}); the independently computed optimum reaches {s_best:.9f}')
     # ---- permutations ----
     s1 = _theta_score(critA, pbA['X'], held, fit_name)
     k = case['k']
@@ -1250,7 +1267,7 @@ def _run_sweeps(bd, orc, fit_name, thorough, function=None):
 
 def _sequence_cases(thorough, fit_name):
     slow = fit_name.startswith('fit_optimize')
-    variants = [dict(), dict(pidx=[0, 1, 1, 3, 4, 4]),
+    variants = [dict(), dict(pidx=[4, 0, 1, 1, 3, 4]),
                 dict(desc='group', groups=_GROUPS[6], pidx=[2, 2, 1], labels='str', pidx_as='list'),
                 dict(ctor='vectors', pidx=[5, 2, 0, 3, 1], pidx_as='tuple'), dict(dtype='float32'), dict(sigma='full'),
                 dict(sigma='diag', pidx=[0, 0, 2, 3, 4, 5], n_train=1), dict(k=1, size='k=1')]
